@@ -220,6 +220,7 @@ def scenarios(chart, rng, limit):
                 for E in subsets(ev):
                     out.append((c, h, iv, c, 0x02, E, 1, 0, 0))      # internal event pending
                     out.append((c, h, iv, c, 0x22, E, 0, 1, 0))      # stable, external event pending
+                    out.append((c, h, iv, c, 0x22, E, 1, 1, 0))      # stable, and an internal event arrived from outside (delayed #_internal send, invoker) next to an external one
                 out.append((c, h, iv, c, 0x02, 0, 0, 1, 0))          # queue empty, macrostep not yet reported
                 out.append((c, h, iv, c, 0x22, 0, 0, 0, 0))          # idle
                 out.append((c, h, iv, c, 0x22, 0, 0, 0, 1))          # cancelled while idle
